@@ -6,7 +6,7 @@ EXTENDS CfgAreaMC
 VARIABLES hist, done
 Depth == atoi(IOEnv.GEN_DEPTH)
 Classes == {m.cls : m \in WriteMenu}
-Rep(c) == CHOOSE m \in WriteMenu : m.cls = c /\ m.ws[1].v # {}
+Rep(c) == CHOOSE m \in WriteMenu : m.cls = c /\ m.ws[1].v # <<>>
 GSetValues == \E c \in Classes : SetValues(Rep(c).ws) /\ hist' = Append(hist, [a |-> "SetValues", cls |-> c, seal |-> FALSE])
 GOther == /\ (NewObject \/ Template \/ GetConfig \/ LoadConfig \/ DoExport \/ Parse)
           /\ hist' = Append(hist, [a |-> act'.a, cls |-> "", seal |-> (act'.a = "Export" /\ act'.seal)])
